@@ -139,6 +139,128 @@ def _ends_with_break(stmts):
     return isinstance(last, dict) and last.get('k') in ('Break', 'Return')
 
 
+def eval_factory(F, fn, table, rv, code):
+    """what createObject returns for the concrete type code `code`: the statements around the switch (guards, early returns,
+    conversions of the operand) are interpreted with folded constants; returns a class name, None (nullptr), or raises
+    AnalysisBroken for a construct the evaluator does not know"""
+    pid = fn['params'][0]['id']
+    SIZES = {'unsigned char': 1, 'signed char': 1, 'char': 1, 'unsigned short': 2, 'short': 2, 'unsigned int': 4, 'int': 4,
+             'unsigned long': 8, 'long': 8, 'Vector::BLF::ObjectType': 4}
+
+    class Ret(Exception):
+        def __init__(self, v):
+            self.v = v
+    env = {}
+
+    def val(e):
+        e0 = e
+        if not isinstance(e, dict):
+            raise AnalysisBroken('createObject: cannot evaluate an expression')
+        k = e.get('k')
+        if k == 'Cast':
+            v = val(e['sub'])
+            if isinstance(v, int):
+                sz = SIZES.get(e.get('t'))
+                if sz:
+                    v &= (1 << (8 * sz)) - 1
+                    if e.get('t') in ('signed char', 'short', 'int', 'long') and v >> (8 * sz - 1):
+                        v -= 1 << (8 * sz)
+            return v
+        if k == 'Ref':
+            if e.get('id') == pid:
+                return code
+            if e.get('id') in env:
+                return env[e['id']]
+            if 'v' in e:
+                return e['v']
+            raise AnalysisBroken('createObject: reference to %s cannot be evaluated' % e.get('name'))
+        if k == 'Lit':
+            if e.get('lit') == 'null':
+                return None
+            return e.get('v')
+        if 'v' in e:
+            return e['v']
+        if k == 'New':
+            return ('class', e.get('rec'))
+        if k == 'Un' and e.get('op') == '!':
+            return int(not val(e['sub']))
+        if k == 'Bin':
+            o = e['op']
+            if o == '&&':
+                return int(bool(val(e['lhs'])) and bool(val(e['rhs'])))
+            if o == '||':
+                return int(bool(val(e['lhs'])) or bool(val(e['rhs'])))
+            a, b = val(e['lhs']), val(e['rhs'])
+            if o in ('==', '!='):
+                return int((a == b) == (o == '=='))
+            if not (isinstance(a, int) and isinstance(b, int)):
+                raise AnalysisBroken('createObject: non-integer comparison')
+            return int({'<': a < b, '<=': a <= b, '>': a > b, '>=': a >= b}[o]) if o in ('<', '<=', '>', '>=') else \
+                {'+': a + b, '-': a - b, '&': a & b, '|': a | b, '*': a * b}.get(o)
+        raise AnalysisBroken('createObject: unsupported expression %s at line %s' % (k, e0.get('l')))
+
+    def run(s_):
+        if s_ is None:
+            return
+        k = s_.get('k')
+        if k == 'Compound':
+            for c in s_['body']:
+                run(c)
+        elif k == 'Decl':
+            for v in s_['vars']:
+                env[v['id']] = val(v['init']) if v.get('init') is not None else None
+        elif k == 'If':
+            if val(s_['cond']):
+                run(s_.get('then'))
+            else:
+                run(s_.get('else'))
+        elif k == 'Return':
+            raise Ret(val(s_['value']) if s_.get('value') is not None else None)
+        elif k == 'Bin' and s_.get('op') == '=':
+            t = strip_all_casts(s_['lhs'])
+            env[t.get('id')] = val(s_['rhs'])
+        elif k == 'Switch':
+            v = val(s_['cond'])
+            body = s_['body']['body'] if s_['body'].get('k') == 'Compound' else [s_['body']]
+            active = False
+            for st in body:
+                c = st
+                while isinstance(c, dict) and c.get('k') in ('Case', 'Default'):
+                    if c['k'] == 'Case' and strip_all_casts(c['value']).get('v') == v:
+                        active = True
+                    c = c.get('sub')
+                if active:
+                    if isinstance(c, dict) and c.get('k') == 'Break':
+                        break
+                    run(c)
+            else:
+                if not active:
+                    # default label?
+                    seen_default = False
+                    for st in body:
+                        c = st
+                        while isinstance(c, dict) and c.get('k') in ('Case', 'Default'):
+                            if c['k'] == 'Default':
+                                seen_default = True
+                            c = c.get('sub')
+                        if seen_default:
+                            if isinstance(c, dict) and c.get('k') == 'Break':
+                                break
+                            run(c)
+        elif k in ('Null', 'Break'):
+            return
+        else:
+            raise AnalysisBroken('createObject: unsupported statement %s at line %s' % (k, s_.get('l')))
+    try:
+        run(fn['body'])
+    except Ret as r:
+        v = r.v
+        if isinstance(v, tuple):
+            return v[1]
+        return None
+    return None
+
+
 def D123(F, rep):
     en = F.enums.get(OT)
     if en is None:
@@ -172,6 +294,15 @@ def D123(F, rep):
     rep.ob('D2', 'result|null-init', init_null and ret_ok, rep.fn_site(fn),
            'createObject returns a variable initialised to nullptr (so any value outside the enumeration, 0..2^32-1, yields nothing)' if init_null and ret_ok
            else 'createObject result variable is not null-initialised / not the single returned value', nontrivial=True)
+    # D2b: values outside the enumeration (boundary and 32-bit aliases of assigned codes) yield nothing
+    rep.count('D2')
+    hi = max(names)
+    probes = sorted({hi + 1, hi + 2, 0xff, 0x100, 0xffff, 0x10000, 0x10001, 0x10000 + hi, 0x7fffffff, 0x80000000, 0xffff0001, 0xffffffff} - set(names))
+    wrong = [(pv, eval_factory(F, fn, table, rv, pv)) for pv in probes]
+    wrong = [(pv, c) for pv, c in wrong if c is not None]
+    rep.ob('D2', 'outside-enumeration', not wrong, rep.fn_site(fn),
+           'createObject yields nothing for %d probe values outside the enumeration (%d .. 0xffffffff)' % (len(probes), hi + 1) if not wrong else
+           'createObject(0x%x) yields a %s although the code is not assigned' % (wrong[0][0], short(wrong[0][1])), nontrivial=True)
     # classes
     obj_classes = [c for c in F.derived_from(OHB) if not F.records[c]['abstract'] and c not in HEADER_CLASSES]
     codes_of = {}
@@ -187,6 +318,13 @@ def D123(F, rep):
             rep.ob('D1', 'code|%s' % nm, False, rep.fn_site(fn), 'no case for ObjectType::%s' % nm)
             continue
         cls = ent['cls']
+        # what the whole function returns for this code (guards and conversions in front of the switch included)
+        actual = eval_factory(F, fn, table, rv, v)
+        if actual != cls:
+            rep.ob('D1', 'code|%s' % nm, False, rep.fn_site(fn, ent['line']),
+                   'code %d (%s): the case news %s but createObject(%d) returns %s - a guard or conversion in front of the switch intercepts this code'
+                   % (v, nm, short(cls or 'nothing'), v, short(actual or 'nothing')), nontrivial=True)
+            continue
         if cls is None:
             reserved = nm == 'UNKNOWN' or nm.startswith('Reserved')
             ok = reserved and ent['extra'] == 0
@@ -228,6 +366,31 @@ def D5(F, rep, LR):
     r = [p for p in I.run('read') if not p.infeasible and not p.thrown]
     stores = all(any(it.path == ('objectType',) for it in p.items) for p in r) and bool(r)
     rep.ob('D5', 'read|objectType', stores, None, 'ObjectHeaderBase::read stores the type code in objectType', nontrivial=True)
+
+
+def D6(F, rep):
+    """a constructor's base-class initialiser runs before the members of the class are initialised: its arguments must not read them"""
+    n = 0
+    for name, fns in sorted(F.functions.items()):
+        for fn in fns:
+            if fn.get('kind') != 'ctor' or not fn.get('class', '').startswith('Vector::BLF::'):
+                continue
+            own = {f['name'] for f in F.records.get(fn['class'], {}).get('fields', [])}
+            for i in fn.get('inits', []):
+                if i.get('kind') != 'base' or i.get('init') is None:
+                    continue
+                n += 1
+                used = sorted({x['name'] for x in walk(i['init']) if x.get('k') == 'Member' and x.get('dk') == 'field' and x.get('name') in own and
+                               x.get('owner') == fn['class']})
+                if used or n <= 1:
+                    pass
+                rep.count('D6')
+                rep.ob('D6', '%s|%s' % (short(fn['class']), short(i.get('name') or '?')), not used, rep.fn_site(fn),
+                       '%s: the %s initialiser reads no member of the object under construction' % (short(fn['name']), short(i.get('name') or 'base')) if not used else
+                       '%s passes its own member %s to the %s constructor, which runs before that member is initialised: the value is indeterminate'
+                       % (short(fn['name']), ', '.join(used), short(i.get('name') or 'base')), nontrivial=bool(used))
+    if n < 100:
+        raise AnalysisBroken('D6: only %d base initialisers found' % n)
 
 
 def serialised_records(F):
